@@ -787,18 +787,24 @@ impl ByteCodeGenerator {
                     let phi_size = std::cmp::max(t_size, e_size);
                     let phi = self.get_destination(phidst.clone(), phi_size);
 
-                    let t = self.find(t);
-                    then_bytecodes.push(if phi_size == 1 {
-                        VmInstruction::Move(phi, t)
-                    } else {
-                        VmInstruction::MoveRange(phi, t, phi_size)
-                    });
-                    let e = self.find(e);
-                    else_bytecodes.push(if phi_size == 1 {
-                        VmInstruction::Move(phi, e)
-                    } else {
-                        VmInstruction::MoveRange(phi, e, phi_size)
-                    });
+                    // A unit-valued `if` (used for its effects) has a branch without a value:
+                    // there is nothing to merge.
+                    let is_unit = matches!(t.as_ref(), mir::Value::None)
+                        || matches!(e.as_ref(), mir::Value::None);
+                    if !is_unit {
+                        let t = self.find(t);
+                        then_bytecodes.push(if phi_size == 1 {
+                            VmInstruction::Move(phi, t)
+                        } else {
+                            VmInstruction::MoveRange(phi, t, phi_size)
+                        });
+                        let e = self.find(e);
+                        else_bytecodes.push(if phi_size == 1 {
+                            VmInstruction::Move(phi, e)
+                        } else {
+                            VmInstruction::MoveRange(phi, e, phi_size)
+                        });
+                    }
                 } else {
                     unreachable!("Unexpected inst: {pinst:?}");
                 }
